@@ -500,12 +500,14 @@ Proof.
         destruct (String.eqb (expected_scheme r u) "https") eqn:E2; cbn [orb negb] in Hs.
       * apply String.eqb_eq in E1. apply String.eqb_eq in E2. congruence.
       * destruct (r_up_tls r); cbn [Bool.eqb negb] in Hs.
-        -- cbn [negb]. apply orb_true_r.
-        -- destruct (rewrite_request fx q pl (u_host t)); discriminate.
+        -- cbn [negb]. rewrite orb_true_r. reflexivity.
+        -- destruct (q_fault q); [apply orb_true_r|].
+           destruct (rewrite_request fx q pl (u_host t)); discriminate.
       * destruct (r_up_tls r); cbn [Bool.eqb negb] in Hs.
-        -- destruct (rewrite_request fx q pl (u_host t)); discriminate.
-        -- cbn [negb]. apply orb_true_r.
-      * destruct (r_up_tls r); cbn [negb]; apply orb_true_r.
+        -- destruct (q_fault q); [apply orb_true_r|].
+           destruct (rewrite_request fx q pl (u_host t)); discriminate.
+        -- cbn [negb]. rewrite orb_true_r. reflexivity.
+      * destruct (r_up_tls r); cbn [negb]; rewrite orb_true_r; reflexivity.
     + rewrite (execute_none _ _ _ He F08). reflexivity.
   - destruct (serve_forwarded _ _ _ _ _ _ _ _ _ _ Hs) as (u' & t & Hv' & He & Hsch & Htls & Hup & Hm & Huri & Hh & Hhs & Hb).
     rewrite Hv in Hv'. inversion Hv'; subst u'; clear Hv'.
@@ -549,6 +551,7 @@ Proof.
     assert (Husable : scheme_usable r u = true).
     { unfold scheme_usable. rewrite <- Hsc. rewrite <- Hup, Htls.
       destruct Hsch as [E|E]; rewrite E; reflexivity. }
+    rewrite (serve_forwarded_intact _ _ _ _ _ _ _ _ _ _ Hs).
     rewrite (execute_some _ _ _ _ He F08), Husable, Hq. cbn [negb andb].
     rewrite Htls, Hsc, Bool.eqb_reflx. fold P. rewrite String.eqb_refl. cbn [andb].
     assert (Hmeth : m = q_method q).
